@@ -11,7 +11,7 @@ LEVEL = "exploration"
 CASES = {"quick": 900, "thorough": 45000}
 SHARDS = {"quick": 8, "thorough": 16}
 ANCHORS = ["api.py:chain", "api.py:_eq", "api.py:_in", "api.py:Converter.get_subconverter", "api.py:Converter.add_record", "api.py:Converter._merge"]
-DECIDING = ["chain", "get_subconverter", "sub-answers"]
+DECIDING = ["chain", "get_subconverter", "sub-answers", "chain-of-one-answers"]
 RULE = (
     "case = 1-4 strict converters of 1-3 records over a shared tiny alphabet (CURIE prefixes a A b B ab c C and the empty "
     "one; URI prefixes u/ U/ u/x v/ V/ v w# W# and the empty one) so that records overlap on CURIE prefixes, URI prefixes, "
@@ -20,7 +20,8 @@ RULE = (
     "model: ValueError only if a record bridges two groups; otherwise C04/C05 invariants, exact union of CURIE and URI "
     "prefixes, input records kept together, group heads (first record in converter order, then record order) providing "
     "the canonical values, c1's expansions preserved in case-sensitive mode, chain([c]) equivalent to c, no case-variant "
-    "prefixes in two records when case-insensitive. Then get_subconverter(P) for P drawn from canonical prefixes, "
+    "prefixes in two records when case-insensitive; the input converters are then used again (chain([c]) must answer "
+    "exactly as c does, also after c took part in a larger chain). Then get_subconverter(P) for P drawn from canonical prefixes, "
     "synonyms, unknown strings and the empty set: records exactly those with a prefix in P; the driver checks that "
     "dropped records' CURIEs do not expand and that URIs whose owner is kept compress as in the parent. key = number of "
     "converters x overlap kinds between them (curie / uri / case-only / via-synonym / bridge) x mode x outcome; non-trivial "
@@ -79,6 +80,27 @@ def run_case(ctx, g, rng):
         kinds.add("bridge")
     S.counters[f"wl:chain:{'ok' if o[0] == 'ret' else 'rejected'}"] += 1
     key = f"n{n}:{'+'.join(sorted(kinds)) or 'disjoint'}:cs{int(cs)}:{o[0]}"
+    # the inputs are used again after having been chained: chain([c]) and c must still answer alike
+    for c_in, before in zip(real[:2], ordered[:2]):
+        again = call(api.chain, [c_in], case_sensitive=True)
+        probe.evaluated("chain-of-one-answers")
+        if again[0] == "ret":
+            strings = {p + ":1" for r in list(before) + list(spec.snapshot(again[1])) for p in spec.all_p(r)}
+            uris = {u + "1" for r in list(before) + list(spec.snapshot(again[1])) for u in spec.all_u(r)}
+            for q in sorted(strings):
+                if call(c_in.expand, q) != call(again[1].expand, q):
+                    violation(["C09"], "chain-of-one-answers", "chain-of-one-answers-differently-from-its-input", query=q,
+                              input_records=[spec.rec_dict(r) for r in spec.snapshot(c_in)], input_records_before_first_chain=[spec.rec_dict(r) for r in before],
+                              input_answer=call(c_in.expand, q), chained_answer=call(again[1].expand, q))
+                    break
+            for q in sorted(uris):
+                if call(c_in.compress, q) != call(again[1].compress, q):
+                    violation(["C09"], "chain-of-one-answers", "chain-of-one-answers-differently-from-its-input", query=q,
+                              input_records=[spec.rec_dict(r) for r in spec.snapshot(c_in)], input_records_before_first_chain=[spec.rec_dict(r) for r in before],
+                              input_answer=call(c_in.compress, q), chained_answer=call(again[1].compress, q))
+                    break
+        else:
+            violation(["C09"], "chain-of-one-answers", "chain-of-one-raises", observed=again[1], input_records=[spec.rec_dict(r) for r in before])
     if o[0] == "raise":
         probe.note_key(key, bool(kinds))
         return
